@@ -163,6 +163,9 @@ func runC02(c *Ctx) {
 				continue
 			}
 			sp := instrSet(condCalls(fn, T, q.spaceField[T], "Signal"))
+			for k := range instrSet(condCalls(fn, T, q.spaceField[T], "Broadcast")) { // waking everybody includes waking one
+				sp[k] = true
+			}
 			el := instrSet(condCalls(fn, T, q.elemsField[T], "Signal"))
 			br := instrSet(condCalls(fn, T, q.elemsField[T], "Broadcast"))
 			for _, s := range fieldStores(fn, T, sizeField[T]) {
